@@ -84,7 +84,7 @@ def main():
         except Exception as e:
             item["error"] = "%s: %s" % (type(e).__name__, e)
         out.append(item)
-    json.dump(out, sys.stdout)
+    json.dump(out, sys.stdout, default=str)
 
 
 if __name__ == "__main__":
